@@ -55,6 +55,36 @@ def gen_hard(rng, seq):
         else:
             loc = rloc(rng, n, strands=(1, -1), mult=3, minlen=3)
             cs.append(("AvoidRareCodons", kw(location=loc, min_frequency=rng.choice([0.1, 0.2, 0.3]), species="e_coli")))
+    if rng.random() < 0.25 and n >= 5:
+        # partial-overlap family: a multi-nucleotide choice of k alternatives (k = 2..6; 4 matters: it
+        # is also the size of a free nucleotide) cut by the border of another restriction
+        L = rng.choice([2, 3, 3, 4])
+        a = rng.randint(0, n - L)
+        k = rng.choice([2, 3, 4, 4, 4, 5, 6])
+        ch = set()
+        while len(ch) < k:
+            ch.add(rdna(rng, L))
+        strand = rng.choice([1, 1, -1, 0])
+        if rng.random() < 0.6:
+            ch.pop()
+            ch.add(seq[a:a + L] if strand != -1 else rcs(seq[a:a + L]))
+        first = ("EnforceChoice", kw(choices=tuple(sorted(ch)), location=(a, a + L, strand)))
+        x = rng.randint(max(0, a - 2), a + L - 1)
+        y = rng.randint(max(x + 1, a + 1), min(n, a + L + 2))
+        if x >= a and y <= a + L:
+            y = min(n, a + L + 1)
+        kind = rng.random()
+        if kind < 0.4:
+            second = ("AvoidChanges", kw(location=(x, y, 0)))
+        elif kind < 0.7:
+            w = "".join(rng.choice("ACGTNWSRYKM") for _ in range(y - x))
+            second = ("EnforceSequence", kw(location=(x, y, rng.choice([1, -1])), sequence=w))
+        else:
+            ch2 = {rdna(rng, y - x) for _ in range(rng.choice([2, 3, 4]))}
+            second = ("EnforceChoice", kw(choices=tuple(sorted(ch2)), location=(x, y, 1)))
+        cs = [first, second] + cs[:1]
+        if rng.random() < 0.5:
+            cs.reverse()
     out = []
     for c in cs:
         if c not in out:
